@@ -14,7 +14,7 @@ import random
 from . import common, gendoc, pipeline
 
 TRIPLES = [('~', '*', ':'), ('!', '|', '>'), ('#', '+', '\\'), ("'", '*', '<'), ('\n', '|', ':'), ('~', '^', '>'), ('$', '*', '@'),
-           ('~', '\x1c', ':'), ('\x1d', '\x1f', '>'), ('\x1e', '*', ':')]   # component separator stays inside the character set
+           ('~', '\x1c', ':'), ('\x1d', '\x1f', '>'), ('\x1e', '*', ':'), ('~', '|', '*'), ('\n', '*', '>')]   # component separator stays inside the character set
 CHUNKINGS = ['whole', 'whole', 'after-terminator', 'inside-linebreak', 'small']
 BREAKS = ['', '\n', '\r', '\r\n']
 
@@ -32,7 +32,7 @@ def reencode(text, term, ele, sub, brk, icvn):
             out.append(ele.join(fields))
         else:
             out.append(ele.join(f.replace(':', sub) for f in fields))
-    b = '' if term == '\n' else brk
+    b = brk      # also after an LF terminator (the pieces between are empty segments, which the reader skips)
     return ''.join(x + term + b for x in out)
 
 
@@ -111,7 +111,7 @@ def canon_value(v, ele, sub):
 
 def observe(text, term, ele, sub, src=None):
     r = pipeline.validate(text, src=src)
-    errs = sorted((e[0], e[1], e[2], e[3], e[5], e[6], canon_value(e[7], ele, sub)) for e in r.errors if len(e) == 8)
+    errs = sorted(((e[0], e[1], e[2], e[3], e[5], e[6], canon_value(e[7], ele, sub)) for e in r.errors if len(e) == 8), key=repr)
     body = None
     if r.ack:
         ack = r.ack
